@@ -9,6 +9,11 @@ user name in the hashed string, stale entries removed by key). `sha256(..).hexdi
 parameter `H`; every theorem that needs it assumes `Function.Injective H` explicitly (no axiom).
 A database `db` is *arbitrary* in every theorem: it may hold records written under the previous
 key format, legacy pickles, or garbage keys.
+
+The cache can be written at any moment a write can really happen (`write_cache()` is synchronous and
+public: an application's listener, a periodic writer, `stop()`): `C17_reports_match_list`,
+`C17_restart_any_write` and `C17_remove_phases` are stated over histories in which `add()` /
+`remove()` are split at their suspension points and writes / the end of the process occur anywhere.
 -/
 namespace AioslskVerif.C17
 open AioslskVerif.Cache AioslskVerif.Generated.Cache
